@@ -225,7 +225,8 @@ type c04Ident struct {
 }
 
 func c04TokenIdent(tag string, kind string) c04Ident {
-	id := c04Ident{Sub: "sub-" + tag, Email: tag + "@tok.test", PU: "pu-" + tag, Groups: []string{"tg-" + tag, "tg-common"}}
+	// mixed case, deliberately unsorted groups: the session must carry the claims as they are, not a normalised form
+	id := c04Ident{Sub: "Sub-" + tag, Email: "First.Last+" + tag + "@Tok.Test", PU: "Pu-" + tag, Groups: []string{"zz-" + tag, "Admins", "aa-common"}}
 	switch kind {
 	case "unicode":
 		id.Email = "ünï-" + tag + "@tök.test"
@@ -1257,7 +1258,7 @@ func TestVerif_C04(t *testing.T) {
 		rng := rand.New(rand.NewSource(run.Env.Seed*1000003 + int64(ci)))
 		base := c04Baseline(cfg, false)
 		// pairs of deviations: thorough everywhere; quick only on the cheap bearer path of one configuration
-		cbSpecs := c04Specs(rng, base, thorough, run.Env.Pick(12, 150))
+		cbSpecs := c04Specs(rng, base, thorough && (ci%2 == 1 || ci == 0), run.Env.Pick(12, 150))
 		rfSpecs := c04Specs(rng, base, thorough && ci%2 == 0, run.Env.Pick(8, 100))
 		bePairs := thorough || cfg.Name == "audclaim-azp+aud"
 		beSpecs := c04Specs(rng, base, bePairs, run.Env.Pick(30, 400))
